@@ -30,6 +30,7 @@ func C04(c *core.Ctx) {
 	}
 	checkSamWorkerStateless(c, tabs, "R8")
 	checkFastaWorkerStateless(c, tabs, "R8")
+	checkReaders(c, tabs, "R10/", true, "findReference") // the differences are those from THE reference: the record named, not a namesake listed before it
 	if dict, ok := codonDict(c, ev0, "R1"); ok {
 		checkCodonDict(c, "R1", dict)
 	}
@@ -308,6 +309,12 @@ func annoCases(c *core.Ctx) []annoCase {
 		{name: "reverse-strand gene spanning the origin, rows listed 3' to 5' as for any reverse gene",
 			gff: []*eval.StructVal{mkGFFFeature(c, "CDS", 16, 21, "-", 0, A("ID", "c1", "Name", "g1")), mkGFFFeature(c, "CDS", 1, 6, "-", 0, A("ID", "c1", "Name", "g1"))},
 			gb:  []gbFeature{{"CDS", "complement(join(16..21,1..6))", "g1", 1}}},
+		{name: "ribosomal slippage: a join that reads base 6 twice, listed after the gene that overlaps it",
+			gff: []*eval.StructVal{mkGFFFeature(c, "CDS", 7, 18, "+", 0, A("ID", "c2", "Name", "g2")), mkGFFFeature(c, "CDS", 1, 6, "+", 0, A("ID", "c1", "Name", "g1")), mkGFFFeature(c, "CDS", 6, 11, "+", 0, A("ID", "c1", "Name", "g1"))},
+			gb:  []gbFeature{{"CDS", "7..18", "g2", 1}, {"CDS", "join(1..6,6..11)", "g1", 1}}},
+		{name: "ribosomal slippage: a join that reads base 6 twice, listed before a gene that starts upstream of it",
+			gff: []*eval.StructVal{mkGFFFeature(c, "CDS", 4, 6, "+", 0, A("ID", "c1", "Name", "g1")), mkGFFFeature(c, "CDS", 6, 14, "+", 0, A("ID", "c1", "Name", "g1")), mkGFFFeature(c, "CDS", 1, 9, "+", 0, A("ID", "c2", "Name", "g2"))},
+			gb:  []gbFeature{{"CDS", "join(4..6,6..14)", "g1", 1}, {"CDS", "1..9", "g2", 1}}},
 		{name: "gene plus non-CDS features",
 			gff: []*eval.StructVal{mkGFFFeature(c, "gene", 1, 24, "+", 0, A("ID", "gene1", "Name", "g1")), mkGFFFeature(c, "CDS", 4, 12, "+", 0, A("ID", "c1", "Name", "g1"))},
 			gb:  []gbFeature{{"gene", "1..24", "g1", 0}, {"CDS", "4..12", "g1", 1}}},
